@@ -113,16 +113,11 @@ def rawMsgEnc : Option Bytes → Bytes
   | some (b :: bs) => b :: bs
   | _ => [0xf6]
 
-def hasExact (h : GoMap) (n : Int) : Bool := h.has (lbl n)
-
-/-- the cross-bucket IV / Partial IV check (`Headers.ensureIV`, headers.go:493) -/
-def ensureIV (p u : GoMap) : Bool :=
-  !((hasExact p 5 && hasExact u 6) || (hasExact p 6 && hasExact u 5))
-
 /-- Hooks the encoder needs from header validation (defined in `Headers.lean`);
     passed as a parameter to keep the mutual block small. -/
 structure EncCfg where
   validate : GoMap → Bool → Bool
+  ensureIV : GoMap → GoMap → Bool
 
 /-
   encodeAny: `encMode.Marshal(v)` for a Go value `v` of the model.
@@ -153,7 +148,7 @@ def encodeAny (cfg : EncCfg) : GoVal → Option Bytes
       | none => none
       | some [] => none
       | some (s :: ss) =>
-        if !ensureIV p u then none else
+        if !cfg.ensureIV p u then none else
         match encodeBucket cfg true rawP p, encodeBucket cfg false rawU u with
         | some pb, some ub => some (0x83 :: (pb ++ (ub ++ encBstr (s :: ss))))
         | _, _ => none
